@@ -81,6 +81,48 @@ fn overlap(line: &str) -> String {
     format!("{id} OVERLAP a={ra} b={rb}\n{id} EXIT - after={}\n", targets::call_u64("r0", 7))
 }
 
+/// `<id> churn <site> <threads> <rounds> <k>`: every thread runs `rounds` complete lifetimes through the SAME fake!(.., times: N) line,
+/// each making k matching calls; the process-wide guard serialises the lifetimes, so each must see exactly the verdict of its own calls
+/// whatever the other threads are doing (waiting in new(), installing, verifying, letting go).
+fn churn(line: &str) -> String {
+    let t: Vec<&str> = line.split_whitespace().collect();
+    let (id, site, nt, rounds, k) = (t[0].to_string(), t[2].parse::<u32>().unwrap(), t[3].parse::<usize>().unwrap(), t[4].parse::<usize>().unwrap(), t[5].parse::<usize>().unwrap());
+    let gate = Arc::new(AtomicUsize::new(0));
+    let mut hs = Vec::new();
+    for _ in 0..nt {
+        let g = gate.clone();
+        hs.push(std::thread::spawn(move || {
+            let mut tally: std::collections::BTreeMap<String, usize> = std::collections::BTreeMap::new();
+            g.fetch_add(1, Ordering::SeqCst);
+            while g.load(Ordering::SeqCst) < nt { std::thread::yield_now(); }
+            for _ in 0..rounds {
+                let mut calls = (0usize, 0usize, 0usize);
+                let exit = catch_unwind(AssertUnwindSafe(|| {
+                    let mut inj = InjectorPP::new();
+                    let tf: fn(u64) -> u64 = targets::r0;
+                    inj.when_called(injectorpp::func!(fn (tf)(u64) -> u64)).will_execute(hist::site(site));
+                    for _ in 0..k {
+                        match catch_unwind(|| targets::call_u64("r0", 7)) {
+                            Ok(v) => { if v == 4000 + site as u64 { calls.0 += 1 } else { calls.2 += 1 } }
+                            Err(e) => if util::classify(&util::panic_msg(&e)) == "overcalled" { calls.1 += 1 } else { calls.2 += 1 },
+                        }
+                    }
+                    drop(inj);
+                }));
+                let ex = match &exit { Ok(()) => "normal".to_string(), Err(e) => { let msg = util::panic_msg(e);
+                    if util::classify(&msg) == "count" { format!("panic:count:{}", msg.split(|ch: char| !ch.is_ascii_digit()).filter(|x| !x.is_empty()).collect::<Vec<_>>().join(":")) } else { "panic:other".into() } } };
+                *tally.entry(format!("admitted={},overcalled={},other={},exit={}", calls.0, calls.1, calls.2, ex)).or_insert(0) += 1;
+            }
+            tally
+        }));
+    }
+    let mut tot: std::collections::BTreeMap<String, usize> = std::collections::BTreeMap::new();
+    for h in hs { for (kk, v) in h.join().unwrap() { *tot.entry(kk).or_insert(0) += v; } }
+    let mut out = format!("{id} CHURN scopes={}", nt * rounds);
+    for (kk, v) in tot { out.push_str(&format!(" {v}x[{kk}]")); }
+    format!("{out}\n{id} EXIT - after={}\n", targets::call_u64("r0", 7))
+}
+
 pub fn main(_args: &[String]) {
     std::panic::set_hook(Box::new(|_| {}));
     let stdin = std::io::stdin();
@@ -89,7 +131,7 @@ pub fn main(_args: &[String]) {
         let l = line.trim().to_string();
         if l.is_empty() { continue; }
         let id = l.split_whitespace().next().unwrap().to_string();
-        let (st, o) = util::fork_run(|| if l.split_whitespace().nth(1) == Some("overlap") { overlap(&l) } else { one(&l) });
+        let (st, o) = util::fork_run(|| match l.split_whitespace().nth(1) { Some("overlap") => overlap(&l), Some("churn") => churn(&l), _ => one(&l) });
         util::emit(&o);
         util::emit(&format!("{id} CHILD {st}\n"));
     }
